@@ -5,7 +5,8 @@ from oracle_util import *  # noqa
 from protocol import from_real, to_real
 
 ID = "C05"
-LEAN_MODULE = "SCoda.Props.C05"
+LEAN_MODULE = ["SCoda.Props.C05", "SCoda.Props.C05b"]
+LEVEL = "proof"
 CLAUSES = [
     ("every remaining event lies on a tick divisible by at least one step size; quantise never fails on well-formed input",
      ["SCoda.C05.on_grid", "SCoda.C05.total", "SCoda.C05.candidates_spec", "SCoda.C05.fmd_spec"]),
@@ -14,7 +15,10 @@ CLAUSES = [
     ("notes pair one-to-one per (channel, pitch) — the output is well-formed and time-sorted, so same-key notes do not overlap — with positive duration, "
      "including the same pitch on several channels", ["SCoda.C05.wf_out", "SCoda.C05.positive_durations", "SCoda.C05.sorted_out"]),
     ("non-note events are all kept", ["SCoda.C05.others_kept"]),
-    ("an isolated note is dropped only when no grid position for its end exceeds its quantised start", None),
+    ("an isolated note (of positive length) survives at the nearest grid position of its onset with a strictly later end whenever some grid position of "
+     "its end lies after its quantised start, and is dropped only otherwise (the statement that does not tie the note-off to its note-on is refuted)",
+     ["SCoda.C05.survives_of_lt", "SCoda.C05.dropped_of_lt", "SCoda.C05.survives_partial", "SCoda.C05.dropped_partial",
+      "SCoda.C05.survives_statement_false", "SCoda.C05.dropped_statement_false"]),
 ]
 RULE = ("well-formed multi-channel note sets (<=8 notes, 3 channels, ticks<200, 30% very short notes, abutting notes) with "
         "non-note events x step lists from the defaults and {2,3,4,5,7,12,16,24}; non-trivial = at least two notes or a note shorter than the largest step")
